@@ -44,7 +44,7 @@ contract(MD + "generate_script_block",
          },
          may_raise=["ValueError"],
          oracle="c15_generate_script_block",
-         pools={"len": [0, 1, 2, 2, 3], "Line": ["l1", "l2"], "Name": ["A", "B", "C"]},
+         pools={"len": [0, 1, 2, 2, 3], "str": ["A", "B", "C", "l1", "l2"]},
          needs={"dependencies_sent_and_earlier": ["I1a.names", "I1b.same_keys", "I1c.first", "I1e.deps_merged", "W1.seen_known", "W5.deps_first"],
                 "missing_dependency": [],
                 "cycle": ["C2.unchanged", "C3.blocked", "I1b.same_keys", "I2.present", "W1.seen_known", "W0.count"]},
